@@ -77,6 +77,14 @@ def run(chk, ctx) -> None:
     _c03._simple_verifiers(re3, ctx)
     _c03._fold(re3, ctx)
     chk.floor('C07.available', 8)
+    from .c08 import _phase_check_first
+    _phase_check_first(chk, ctx, 'C07.phase_check')
+    # the betting/dealing part of the hand is closed when the pots are pushed: the street is set to None exactly there
+    closers = sorted(n for n, f in ms.items() for p in ctx.paths(f) for e in p.writes()
+                     if unversion(e.term) == ('self', 'street_index') and e.op == 'set' and unversion(e.value) == ('const', None))
+    chk.ob('C07.terminal', 'State.street_index:closed', sorted(set(closers)) == ['_begin_chips_pushing'], ms['_begin_chips_pushing'].loc,
+           'the last street is closed (street_index = None) when chips pushing begins and nowhere else: "the hand is past its streets" is what '
+           'showing, folding and dealing verifiers test', got=sorted(set(closers)))
     # ------------------------------------------------------------------ graph
     for fn, targets in GRAPH.items():
         if fn not in ms:
